@@ -98,8 +98,8 @@ PROPS = {
         "level": "proof",
         "lean_modules": ["RaftVerif.Properties.C05"],
         "engines": [E4("reads", 60, 500), E4("static", 20, 200), E4D("S6-read-confirmed-by-older-round,S28-read-index-before-first-commit")],
-        "explanation": "Section-level proof after three fix: commits (S5, S6, S28): a linearizable read is served only by a leader that committed in its term, only when verified, only when its read index is applied; a round verifies only reads submitted before the round was created; a new read is younger than every round in flight; the read index covers the commit index and, before the first commit of the term, the whole log; replies of another term and replies of non-voters confirm nothing. The real-time conclusion over cluster runs is tied by " + CLUSTER_NOTE + " with replies held far beyond the election timeout, deposed leaders and the two witnesses of the repaired defects.",
-        "assumptions": ["the composition of the section theorems into the real-time statement uses election safety (C02, proved) and leader completeness (not proved at cluster level)"],
+        "explanation": "Full proof on the timed replication-layer cluster model (Model/ReplRead.lean = the model of C01 plus a logical clock, ghost times of votes/elections/answers/commits, and read registration): C05_linearizable_read — in every reachable state, if the guard under which the code answers a registered read holds (still leader of the term, an entry of its term committed, read index applied, a quorum answered requests of this term built after the registration), then every commit made by any leader before the read was registered lies inside the prefix the read is answered from; no timing assumption; non-vacuity by a concrete reachable serving state. The guard and the read index are the ones of the executable node functions (registerRead, readOnlyStep, onAEReply rounds tagged by read sequence), which E3-leader compares with the code. Section level, after three fix: commits (S5, S6, S28): a linearizable read is served only by a leader that committed in its term, only when verified, only when its read index is applied; a round verifies only reads submitted before the round was created; a new read is younger than every round in flight; the read index covers the commit index and, before the first commit of the term, the whole log; replies of another term and replies of non-voters confirm nothing. The real-time conclusion over cluster runs is tied by " + CLUSTER_NOTE + " with replies held far beyond the election timeout, deposed leaders and the two witnesses of the repaired defects.",
+        "assumptions": ["static membership, no compaction in the cluster theorem", "the link between the model's guard (answers to requests built after the registration) and the code's rounds (a round verifies reads whose sequence number is at most the one it was created with; replies of other terms ignored) is the section-level theorems of this file plus E3-leader, not a refinement proof"],
     },
     "C07": {
         "level": "proof",
